@@ -11,6 +11,31 @@ TB = ("Trusted: Lean 4.33 kernel; axioms ⊆ {propext, Classical.choice, Quot.so
       "(constants/tables regenerated from /repo) and the differential correspondence stream; ")
 
 NOTES = {
+    "C01": {
+        "text": "Kernel-checked refinement: every mutating operation of the model (alloc, init_value, realloc, byte/typed write, var-len pack, alloc_and_pack) on the canonical bytes of an abstract entry "
+                "list yields the canonical bytes of the abstract successor and the abstract outcome (range, repetition number, success/failure), for every buffer size, 8-byte non-zero tag, length and "
+                "state; lifted to all histories from a zeroed buffer by induction. The abstract steps are shown to be read-your-writes (zero-extended/truncated after resize), to change at most the one "
+                "addressed entry or append one, to keep insertion order and repetition numbers, and re-opening the bytes (one shared check for the three views) reads the abstract list back at true offsets.",
+        "design_ref": "§5 C01",
+        "note": TB + "that TlvStateBorrowed/Mut/Owned share check_data is a fact about the source checked by the stream (all three are opened and compared), not by proof.",
+        "technique": "Lean 4 refinement to an abstract entry list + induction over operation histories (kernel-checked) + differential correspondence on raw buffers with shadow-list oracle",
+    },
+    "C03": {
+        "text": "Kernel-checked corollaries of the C01 refinement: after any history from a zeroed n-byte buffer the raw bytes are exactly flatten(type ++ LE32 length ++ value) of the logical entry list "
+                "followed by zeros up to n (total size preserved by every step, so grown space comes out of the zero tail and released space returns to it as zeros); 12 bytes of overhead per entry; "
+                "LE byte j of the length is n/256^j%256.",
+        "design_ref": "§5 C03",
+        "note": TB + "the README's layout description is compared by the stream's independent encoder, not parsed.",
+        "technique": "Lean 4 theorem (corollary of the refinement, all histories/sizes) + byte-for-byte differential check against an independent encoder",
+    },
+    "C04": {
+        "text": "Kernel-checked on every byte string (reachable or not): a failed alloc / init_value / alloc_and_pack / realloc returns bit-identical bytes (the model writes the header only after the "
+                "length conversion and room check, as the repaired code does; with the old order the theorem is false: 20 zero bytes, length 9), so an openable buffer stays openable; a failed var-len pack "
+                "changes no byte outside the entry's value range; on every buffer that opens, alloc and realloc with a genuine tag never panic (canonical or not).",
+        "design_ref": "§5 C04",
+        "note": TB + "after a *successful* operation on a non-canonical buffer (garbage behind the terminator) nothing is claimed, as in the property.",
+        "technique": "Lean 4 theorem over all byte strings (kernel-checked) + differential correspondence injecting each failing operation at every reached state",
+    },
     "C02": {
         "text": "Kernel-checked on every byte string: unpack / get_discriminators / get_bytes / typed get never panic; unpack succeeds iff the bytes are a run of well-formed entries ended by the end "
                 "of the buffer, < 8 trailing zero bytes or an all-zero tag (both directions); on such a buffer the listed types are the entries in order, and a (type, repetition) lookup returns exactly "
